@@ -68,13 +68,13 @@ VARIABLES delivered,  \* events 1..delivered have been applied (event e by opera
           work,       \* set of File          files present in working storage
           nflush, ncompact,
           nextId,     \* store.state.checkpointID
-          pending,    \* store.state.pendingSnapshot: [id (0 = none), sp, acks]
-          pubq,       \* publication tasks not yet written: set of [id, sp]
+          pending,    \* store.state.pendingSnapshot: [id (0 = none), sp, acks, ord (operators in ack order)]
+          pubq,       \* publication tasks not yet written: set of [id, sp, ord]
           completed,  \* id of store.state.completedSnapshots (0 = none)
           jobFiles,   \* ids with a job snapshot file in job storage
           retq,       \* retention notifications on their way: Seq([id, todo])
           nsp, nspErr, nbusy,
-          spId, spStage, spNext, spFiles, spDocs,   \* the savepoint artifact being / having been built
+          spId, spStage, spNext, spOrd, spFiles, spDocs,   \* the savepoint artifact (spOrd: its operator checkpoints in ack order) being / having been built
           cut,        \* [id -> delivered at the barrier]  (ghost: the cut of checkpoint id)
           taken,      \* [Ops -> [id -> Entry]]            (ghost: operator o's DKV checkpoint id as taken)
           phase,      \* "run" | "wiped" | "restored"
@@ -82,10 +82,10 @@ VARIABLES delivered,  \* events 1..delivered have been applied (event e by opera
           hist
 
 vars == <<delivered, mem, l0, deep, ntab, nwal, ck, work, nflush, ncompact, nextId, pending, pubq,
-          completed, jobFiles, retq, nsp, nspErr, nbusy, spId, spStage, spNext, spFiles, spDocs, cut, taken,
+          completed, jobFiles, retq, nsp, nspErr, nbusy, spId, spStage, spNext, spOrd, spFiles, spDocs, cut, taken,
           phase, restored, hist>>
 view == <<delivered, mem, l0, deep, ntab, nwal, ck, work, nflush, ncompact, nextId, pending, pubq,
-          completed, jobFiles, retq, nsp, nspErr, nbusy, spId, spStage, spNext, spFiles, spDocs, cut, taken,
+          completed, jobFiles, retq, nsp, nspErr, nbusy, spId, spStage, spNext, spOrd, spFiles, spDocs, cut, taken,
           phase, restored>>
 
 Ops == 1..NOps
@@ -97,7 +97,7 @@ Range(s) == {s[i] : i \in DOMAIN s}
 File(o, k, id, ev) == [o |-> o, k |-> k, id |-> id, ev |-> ev]
 DocFile(o) == File(o, "doc", 0, {})
 NoEntry == [id |-> 0, wal |-> File(0, "wal", 0, {}), tabs |-> {}]
-NoPending == [id |-> 0, sp |-> FALSE, acks |-> {}]
+NoPending == [id |-> 0, sp |-> FALSE, acks |-> {}, ord |-> <<>>]
 
 EntryFiles(e) == {e.wal} \cup e.tabs
 Content(fs) == UNION {f.ev : f \in fs}
@@ -122,7 +122,7 @@ Init ==
   /\ nflush = 0 /\ ncompact = 0
   /\ nextId = 0 /\ pending = NoPending /\ pubq = {} /\ completed = 0 /\ jobFiles = {} /\ retq = <<>>
   /\ nsp = 0 /\ nspErr = 0 /\ nbusy = 0
-  /\ spId = 0 /\ spStage = "none" /\ spNext = 0 /\ spFiles = {} /\ spDocs = [o \in Ops |-> <<>>]
+  /\ spId = 0 /\ spStage = "none" /\ spNext = 0 /\ spOrd = <<>> /\ spFiles = {} /\ spDocs = [o \in Ops |-> <<>>]
   /\ cut = [i \in 1..MaxCkpt |-> 0]
   /\ taken = [o \in Ops |-> [i \in 1..MaxCkpt |-> NoEntry]]
   /\ phase = "run"
@@ -132,7 +132,7 @@ Init ==
 Log(r) == hist' = Append(hist, r)
 
 JobVars  == <<nextId, pending, pubq, completed, jobFiles, retq>>
-SpVars   == <<spId, spStage, spNext, spFiles, spDocs>>
+SpVars   == <<spId, spStage, spNext, spOrd, spFiles, spDocs>>
 DataVars == <<delivered, mem, l0, deep, ntab, nwal, nflush, ncompact>>
 
 -----------------------------------------------------------------------------
@@ -140,8 +140,10 @@ DataVars == <<delivered, mem, l0, deep, ntab, nwal, nflush, ncompact>>
 
 \* While a runner's acknowledgement is outstanding its event loop is inside createCheckpoint (no reads);
 \* while an operator's acknowledgement is outstanding its event loop is inside handleCheckpointBarrier
-\* (holding o.mu): nothing reaches its handler.
-CanDeliver(o) == pending.id = 0 \/ (SR \in pending.acks /\ o \in pending.acks)
+\* (holding o.mu) and the runner whose barrier completed the alignment is blocked in that call, so which
+\* records still get through depends on barrier arrival order: the model delivers records only while no
+\* checkpoint is in progress at the store (between the last acknowledgement and the next start).
+CanDeliver(o) == pending.id = 0
 
 Ev1 ==
   /\ phase = "run" /\ delivered < MaxEv /\ CanDeliver(Owner(delivered + 1))
@@ -182,7 +184,7 @@ EntryNow(o, n) == [id |-> n, wal |-> File(o, "wal", nwal[o], mem[o]), tabs |-> R
 \* acknowledgement BEFORE it forwards the barrier (SourceRunner.createCheckpoint, then outputStream)
 StartNew(n, sp) ==
   /\ nextId' = n
-  /\ pending' = [id |-> n, sp |-> sp, acks |-> {}]
+  /\ pending' = [id |-> n, sp |-> sp, acks |-> {}, ord |-> <<>>]
   /\ cut' = [cut EXCEPT ![n] = delivered]
 
 \* the barriers of checkpoint n are aligned at every operator: every operator takes DKV checkpoint n
@@ -235,10 +237,11 @@ Ack(who) ==
   /\ who # SR => SR \in pending.acks
   /\ LET acks == pending.acks \cup {who}
          full == acks = Ops \cup {SR}
+         ord == IF who = SR THEN pending.ord ELSE Append(pending.ord, who)   \* snapshot.operatorCheckpoints is in ack order
      IN /\ IF full
            THEN /\ pending' = NoPending     \* cleared at once; publication is asynchronous
-                /\ pubq' = pubq \cup {[id |-> pending.id, sp |-> pending.sp]}
-           ELSE /\ pending' = [pending EXCEPT !.acks = acks]
+                /\ pubq' = pubq \cup {[id |-> pending.id, sp |-> pending.sp, ord |-> ord]}
+           ELSE /\ pending' = [pending EXCEPT !.acks = acks, !.ord = ord]
                 /\ UNCHANGED pubq
         /\ Log([a |-> "Ack", who |-> who, id |-> pending.id, full |-> full])
   /\ IF who = SR THEN OpCkptAll(pending.id) ELSE UNCHANGED <<ck, taken, work, nwal>>
@@ -254,7 +257,7 @@ PubWrite ==
         /\ retq' = IF completed # 0 THEN Append(retq, [id |-> t.id, todo |-> Ops]) ELSE retq
         /\ completed' = t.id
         /\ IF t.sp
-           THEN /\ spId' = t.id /\ spStage' = "copy" /\ spNext' = 1
+           THEN /\ spId' = t.id /\ spStage' = "copy" /\ spNext' = 1 /\ spOrd' = t.ord
                 /\ UNCHANGED <<spFiles, spDocs>>
            ELSE UNCHANGED SpVars
         /\ Log([a |-> "PubWrite", id |-> t.id, sp |-> t.sp, cut |-> cut[t.id], retain |-> completed # 0])
@@ -284,22 +287,22 @@ Retain(o) ==
 CopyMust(o) == LET e == ById(ck[o], spId) IN e # NoEntry /\ EntryFiles(e) \subseteq work
 
 SpCopyOp(o) ==
-  /\ phase = "run" /\ spStage = "copy" /\ spNext = o
+  /\ phase = "run" /\ spStage = "copy" /\ spOrd[spNext] = o
   /\ LET e == Listed(ck[o], spId)
          ok == e # NoEntry /\ EntryFiles(e) \subseteq work
-         last == o = NOps
+         last == spNext = NOps
          jobOk == spId \in jobFiles
      IN /\ IF ok
            THEN /\ spFiles' = spFiles \cup EntryFiles(e) \cup {DocFile(o)}
                 /\ spDocs' = [spDocs EXCEPT ![o] = ck[o]]
                 /\ spStage' = IF last THEN (IF jobOk THEN "done" ELSE "failed") ELSE "copy"
-                /\ spNext' = o + 1
+                /\ spNext' = spNext + 1
            ELSE /\ spStage' = "failed"
                 /\ UNCHANGED <<spFiles, spDocs, spNext>>
         /\ Log([a |-> "SpCopyOp", o |-> o, id |-> spId, last |-> last, ok |-> ok /\ (last => jobOk),
                 must |-> CopyMust(o) /\ (last => jobOk),
                 docIds |-> [i \in DOMAIN ck[o] |-> ck[o][i].id]])
-  /\ UNCHANGED <<DataVars, ck, work, JobVars, nsp, nspErr, nbusy, spId, cut, taken, phase, restored>>
+  /\ UNCHANGED <<DataVars, ck, work, JobVars, nsp, nspErr, nbusy, spId, spOrd, cut, taken, phase, restored>>
 
 Wipe ==
   /\ phase = "run" /\ spStage = "done"
